@@ -8,6 +8,7 @@ import (
 	"math"
 	"os"
 	"os/exec"
+	"strconv"
 	"strings"
 	"time"
 
@@ -42,6 +43,9 @@ type in struct {
 	Limit *int64  `json:"limit,omitempty"`
 	Repl  *replIn `json:"repl,omitempty"`
 	Off   int64   `json:"off,omitempty"`
+	SNum  bool    `json:"s_is_number,omitempty"` // pass the subject (decimal digits) as a Lua number
+	Kind  int     `json:"kind,omitempty"`        // fn=big: 0 = find(("a"):rep(N), "a*"), 1 = find("abc", ("("):rep(N))
+	N     int64   `json:"n,omitempty"`
 	Plain bool    `json:"plain,omitempty"` // find: pass `true` as 4th argument ...
 	Extra int     `json:"extra,omitempty"` // ... followed by this many nil arguments
 	Src   string  `json:"origin,omitempty"` // generator stream, for the distribution table
@@ -162,6 +166,11 @@ func runReal(c in) (o out) {
 	p := string(unhex(c.P))
 	sCopy := string(append([]byte{}, s...))
 	strlib := L.GetGlobal("string")
+	var subj lua.LValue = lua.LString(s)
+	if c.SNum {
+		f, _ := strconv.ParseFloat(s, 64)
+		subj = lua.LNumber(f)
+	}
 	var bad []string
 	conv := func(rs []lua.LValue) []val {
 		vs := make([]val, 0, len(rs))
@@ -172,7 +181,7 @@ func runReal(c in) (o out) {
 	}
 	switch c.Fn {
 	case "find", "match":
-		args := []lua.LValue{lua.LString(s), lua.LString(p)}
+		args := []lua.LValue{subj, lua.LString(p)}
 		if c.Init != nil {
 			args = append(args, lua.LNumber(*c.Init))
 		} else if c.Plain {
@@ -187,19 +196,27 @@ func runReal(c in) (o out) {
 		res, kind, msg := pcall(L, L.GetField(strlib, c.Fn), args...)
 		o = out{Kind: kind, Msg: msg, Vals: conv(res)}
 	case "gmatch":
-		res, kind, msg := pcall(L, L.GetField(strlib, "gmatch"), lua.LString(s), lua.LString(p))
+		res, kind, msg := pcall(L, L.GetField(strlib, "gmatch"), subj, lua.LString(p))
 		o = out{Kind: kind, Msg: msg}
 		if kind != "ok" {
 			break
 		}
-		if len(res) < 2 {
-			bad = append(bad, "gmatch returned fewer than 2 values")
+		// Lua 5.1: ONE value, a self-contained iterator function
+		if len(res) != 1 || res[0].Type() != lua.LTFunction {
+			bad = append(bad, fmt.Sprintf("gmatch returned %d values (one iterator function expected)", len(res)))
 			break
 		}
-		f, st := res[0], res[1]
+		f := res[0]
 		o.Tuples = [][]val{}
 		for k := 0; ; k++ {
-			r, kd, m := pcall(L, f, st, lua.LNil)
+			// called without arguments, and as the generic for calls it, alternately
+			var r []lua.LValue
+			var kd, m string
+			if k%2 == 0 {
+				r, kd, m = pcall(L, f)
+			} else {
+				r, kd, m = pcall(L, f, lua.LNil, lua.LNil)
+			}
 			if kd != "ok" {
 				o.Kind, o.Msg = kd, m
 				break
@@ -214,16 +231,25 @@ func runReal(c in) (o out) {
 			}
 		}
 		if o.Kind == "ok" {
-			// exhausted iterators stay exhausted
-			r, kd, m := pcall(L, f, st, lua.LNil)
+			// exhausted iterators stay exhausted; a stray argument is ignored
+			r, kd, m := pcall(L, f, L.NewTable())
 			if kd != "ok" {
 				o.Kind, o.Msg = kd, "after exhaustion: "+m
 			} else if len(r) != 0 && r[0] != lua.LNil {
 				bad = append(bad, "gmatch iterator returned a value after exhaustion")
 			}
 		}
+	case "big":
+		var res []lua.LValue
+		var kind, msg string
+		if c.Kind == 0 {
+			res, kind, msg = pcall(L, L.GetField(strlib, "find"), lua.LString(strings.Repeat("a", int(c.N))), lua.LString("a*"))
+		} else {
+			res, kind, msg = pcall(L, L.GetField(strlib, "find"), lua.LString("abc"), lua.LString(strings.Repeat("(", int(c.N))))
+		}
+		o = out{Kind: kind, Msg: msg, Vals: conv(res)}
 	case "gsub":
-		args := []lua.LValue{lua.LString(s), lua.LString(p)}
+		args := []lua.LValue{subj, lua.LString(p)}
 		var calls [][]val
 		ncall := 0
 		switch c.Repl.Kind {
@@ -553,6 +579,8 @@ func coqCase(c in, o out) string {
 			lim = *c.Limit
 		}
 		return fmt.Sprintf("CPmFind %s %s %s %s %s", p, s, lib.CoqZ(c.Off), lib.CoqZ(lim), obsWrap(o.Kind, lib.CoqList(ms)))
+	case "big":
+		return fmt.Sprintf("CBig %d %d %s", c.Kind, c.N, obsWrap(o.Kind, coqVals(o.Vals)))
 	case "prog":
 		rows := make([]string, len(o.Rows))
 		for i, r := range o.Rows {
@@ -590,8 +618,8 @@ func supported(c in) bool {
 			ncap++
 		}
 	}
-	if ncap > 32 {
-		return false
+	if ncap > 40 {
+		return false // the reference side stops at LUA_MAXCAPTURES = 32; a few more are generated on purpose
 	}
 	if len(c.S) > 2*4096 {
 		return false
@@ -621,7 +649,7 @@ func runCase(w *lib.Writer, pl *pool, c in) {
 		obs["msg"] = o.Msg
 	}
 	switch c.Fn {
-	case "find", "match":
+	case "find", "match", "big":
 		obs["vals"] = o.Vals
 	case "gmatch":
 		obs["tuples"] = o.Tuples
